@@ -3,6 +3,7 @@ package main
 import (
 	"fmt"
 	"go/types"
+	"sort"
 	"strings"
 
 	"golang.org/x/tools/go/ssa"
@@ -158,6 +159,7 @@ func (e *Enc) call(site ssa.Instruction, cc *ssa.CallCommon, rt types.Type) Valu
 		}
 	}
 	e.atCallAsserts(site, key, args, argTypes)
+	e.bumpCallCount(key)
 
 	// special models
 	if v, ok := e.specialCall(site, key, cc, args, rt); ok {
@@ -747,4 +749,36 @@ func (e *Enc) atCallAsserts(site ssa.Instruction, key string, args []Value, argT
 		}
 		e.assertOb(fmt.Sprintf("at@%s#%d.%d", shortName(ac.Callee), ac.Ord, i+1), t, "assertion before call to "+ac.Callee+": "+ac.C.Src, posOf(site))
 	}
+}
+
+// ghost call counters: calls("name") in specifications
+func (e *Enc) bumpCallCount(key string) {
+	fam := "L$CALLS$" + sanitize(key)
+	e.callKeys[key] = fam
+	as := arrSort(SInt, SInt)
+	cur := e.cur.get(fam, as)
+	e.cur.set(fam, e.define(fmt.Sprintf("%s@c%d", fam, e.nextID()), sto(cur, intLit(0), add(sel(cur, intLit(0)), intLit(1)))))
+}
+
+func (e *Enc) callCount(h *HeapState, suffix string) Term {
+	var ts []Term
+	var keys []string
+	for k := range e.callKeys {
+		keys = append(keys, k)
+	}
+	sort.Strings(keys)
+	for _, k := range keys {
+		if strings.HasSuffix(k, suffix) {
+			cur := sel(h.get(e.callKeys[k], arrSort(SInt, SInt)), intLit(0))
+			base := sel(e.entry.get(e.callKeys[k], arrSort(SInt, SInt)), intLit(0))
+			ts = append(ts, sub(cur, base))
+		}
+	}
+	if len(ts) == 0 {
+		return intLit(0)
+	}
+	if len(ts) == 1 {
+		return ts[0]
+	}
+	return app(SInt, "+", ts...)
 }
